@@ -707,6 +707,35 @@ def c19_ref_scenarios(rng, tag, n):
     return out
 
 
+def crowd_c09(rng, tag, n):
+    """an ASCII login whose packets are separated by crowds of other sessions on the same connection (16, 17, 20, 40 of
+    them between two packets of the login, each with a session id of its own, finished or not)"""
+    out = []
+    for i in range(n):
+        cfg = base_cfg(rng, tag)
+        k = [16, 17, 20, 40, 33, 64][i % 6]
+        good = rng.random() < 0.7
+        login = session_steps(1, 1000, ascii_login("alice", ("alice-pw-" + tag) if good else "wrong"), fl=1)
+        nxt = [1001]
+
+        def crowd(m):
+            res = []
+            for _ in range(m):
+                r = rng.random()
+                if r < 0.5:
+                    sc_ = pap_login(rng.choice(["alice", "frank", "carol"]), rng.choice(["alice-pw-" + tag, "frank-pw-" + tag, "x"]))
+                elif r < 0.8:
+                    sc_ = [(author(rng.choice(["alice", "bob"]), [list(b"service=shell"), list(b"cmd=show")]), 0, [])]
+                else:
+                    sc_ = ascii_login("frank", "frank-pw-" + tag, stop_after=rng.choice([1, 2]))     # left waiting at a prompt
+                res += session_steps(1, nxt[0], sc_, fl=1)
+                nxt[0] += 1
+            return res
+        steps = [login[0]] + crowd(k) + [login[1]] + crowd(k if i % 2 else 3) + [login[2]]
+        out.append({"id": "crowd-%d" % i, "cfg": cfg, "conns": [{"c": 1, "addr": "10.1.0.5"}], "steps": steps, "iso": True, "log": False})
+    return out
+
+
 def parallel_c09(rng, tag, n):
     """logins of the SAME user with different passwords on two or three connections, fed at the same moment; the user's
     credential check takes tens of milliseconds (password prefix slow-: bcrypt cost 10), so the checks really overlap"""
@@ -798,6 +827,7 @@ def collect(ctx, prop):
         scen += exhaustive_c09(rng, tag, 300 if quick else 6000)
         scen += overlap_c09(rng, tag, 150 if quick else 3000)
         scen += parallel_c09(rng, tag, 12 if quick else 150)
+        scen += crowd_c09(rng, tag, 6 if quick else 60)
     if prop in ("C07", "C09", "C10", "C06"):
         scen += reuse_ref_scenarios(rng, tag, 40 if quick else 600)
         if prop == "C09":
